@@ -305,6 +305,35 @@ def accuracy_bounded(run):
                 ev += 1
                 if abs(gotv[l] - w) > 1e-10 * max(1.0, abs(w)):
                     fails.append(("permanent_laplace", rows, cols, l, complex(gotv[l]), complex(w)))
+    # ONE job (hardware_concurrency forced to 1 through the ctypes shim): every Gray step uses the incremental weight update,
+    # which with 4 x cores jobs is hardly exercised on small patterns
+    try:
+        lib = native.build()
+        lib.force_threads(1)
+        for rows, cols in (((2, 1), (1, 2)), ((3, 2), (2, 3)), ((2, 2, 1), (1, 2, 2)), ((3, 0, 2), (2, 2, 1)), ((4, 3), (3, 4)), ((2, 2, 2), (3, 1, 2))):
+            n = len(rows)
+            A = rng.normal(size=(n, n)) + 1j * rng.normal(size=(n, n))
+            want = perm_ref(expand(A, rows, cols))
+            got = native.permanent(lib, A, list(rows), list(cols))
+            ev += 1
+            distinct.add(("one-job", rows, cols))
+            if abs(got - want) > 1e-9 * max(1.0, abs(want)):
+                fails.append(("permanent", "one job", rows, cols, complex(got), complex(want)))
+            gv = native.permanent(lib, A, list(rows), list(cols), laplace=True)
+            m_idx = min((r_, i) for i, r_ in enumerate(rows) if r_ > 0)[1]
+            for l in range(n):
+                if cols[l] == 0:
+                    continue
+                r2, c2 = list(rows), list(cols)
+                r2[m_idx] -= 1
+                c2[l] -= 1
+                w = perm_ref(expand(A, r2, c2))
+                ev += 1
+                if abs(gv[l] - w) > 1e-9 * max(1.0, abs(w)):
+                    fails.append(("permanent_laplace", "one job", rows, cols, l, complex(gv[l]), complex(w)))
+        lib.force_threads(-1)
+    except Exception as e:      # noqa: BLE001
+        run.broken_ob("C04/bounded/one-job", f"forced single-job run failed: {e}"[:300])
     # high multiplicity on two modes (closed form): c * ones
     for r in ((12, 12), (20, 20), (5, 35), (1, 39), (40,), (13, 13, 14)):
         n = len(r)
@@ -449,13 +478,13 @@ def check(run):
     bc_max, bc_type = None, None
     if out is not None:
         res, bc_max = out
-        N.report(run, res, on_failed=_on_failed_vc)
+        N.report(run, res, on_failed=_on_failed_vc, on_unknown=_on_unknown_vc)
         bc_type = "int" if bc_max == 2147483647 else "int64_t"
     if want("laplace"):
         N.check_vector_sum(run)
         lap = N.check_laplace(run)
         if lap is not None:
-            N.report(run, lap[0], on_failed=_on_failed_vc)
+            N.report(run, lap[0], on_failed=_on_failed_vc, on_unknown=_on_unknown_vc)
     if want("safety"):
         C04_safety.check(run)
     if only is None:
@@ -578,6 +607,49 @@ def _on_failed_gray(run, vc, r):
     """a refuted obligation of a Gray-counter method: look for a concrete failing (limits, start offset) on the real class"""
     rep = _gray_replay_child()
     return {"replay": {"kind": "gray"}, "reproduced": rep.get("reproduced", False), "observed": rep}
+
+
+_UNKNOWN_CACHE = {}
+
+
+def _on_unknown_vc(vc, r):
+    """an undecided kernel obligation: compare both permanent kernels, compiled from the tree, with the defining sum on a few
+    multiplicity patterns (computed once per run)"""
+    if "done" not in _UNKNOWN_CACHE:
+        bad = []
+        try:
+            mod = native.build_pybind("permanent")
+            rng = np.random.default_rng(3)
+            for rows, cols in (((2, 1), (1, 2)), ((3, 2), (2, 3)), ((2, 2, 1), (1, 2, 2)), ((3, 0, 2), (2, 2, 1)), ((4, 3), (3, 4))):
+                n = len(rows)
+                A = rng.normal(size=(n, n)) + 1j * rng.normal(size=(n, n))
+                want = perm_ref(expand(A, rows, cols))
+                got = mod.permanent(np.array(A, dtype=np.complex128), np.array(rows, dtype=np.int32), np.array(cols, dtype=np.int32))
+                if abs(got - want) > 1e-9 * max(1.0, abs(want)):
+                    bad.append({"kernel": "permanent", "rows": rows, "cols": cols, "got": complex(got), "want": complex(want)})
+                m_idx = min((r_, i) for i, r_ in enumerate(rows) if r_ > 0)[1]
+                gv = mod.permanent_laplace(np.array(A, dtype=np.complex128), np.array(rows, dtype=np.int32), np.array(cols, dtype=np.int32))
+                for l in range(n):
+                    if cols[l] == 0:
+                        continue
+                    r2, c2 = list(rows), list(cols)
+                    r2[m_idx] -= 1
+                    c2[l] -= 1
+                    w = perm_ref(expand(A, r2, c2))
+                    if abs(gv[l] - w) > 1e-9 * max(1.0, abs(w)):
+                        bad.append({"kernel": "permanent_laplace", "rows": rows, "cols": cols, "column": l, "got": complex(gv[l]), "want": complex(w)})
+        except Exception as e:      # noqa: BLE001
+            _UNKNOWN_CACHE["done"] = {"reproduced": False, "observed": {"error": str(e)[:200]}}
+            return _UNKNOWN_CACHE["done"]
+        if not bad:
+            # with many jobs every job performs few incremental Gray steps: force ONE job (all steps incremental) and compare
+            rep = replay_threads()
+            if rep.get("reproduced"):
+                _UNKNOWN_CACHE["done"] = {"reproduced": True, "observed": {"value_depends_on_the_number_of_jobs": rep.get("bad")},
+                                          "replay": {"kind": "threads"}}
+                return _UNKNOWN_CACHE["done"]
+        _UNKNOWN_CACHE["done"] = {"reproduced": bool(bad), "observed": {"cases": bad[:4]}, "replay": {"kind": "accuracy"}}
+    return _UNKNOWN_CACHE["done"]
 
 
 def _on_failed_vc(vc, r):
